@@ -183,6 +183,37 @@ def rejected_applicant_probe(r, ops, tags):
         reserved_probe(r, ops, tags, T=T, callers=["u0", first, r.choice(["ca1", "ca2"]), first, second])
 
 
+def dropped_admin_probe(r, ops, tags):
+    """ownership that changes hands by an approved update: chain c1 takes a second admin, then the new admin has the old one removed
+    from the admin list; operations reserved to the chain's own admin are then called by an outsider, by the removed admin, by another
+    chain's admin and by the remaining admin"""
+    new = r.choice(["ca5", "ca6"])
+    ops.append(f"block xfer adm0 {new} 100000000000")
+    ops.append(f"block bvm ca1 appchain UpdateAppchain s:c1 s:name-c1 s:desc x: al:ca1,{new} s:reason")
+    for v in ("adm0", "adm1", "adm2"):
+        ops.append(f"block bvm {v} gov Vote s:@ca1-{PRELUDE_PROPOSALS['ca1']} s:approve s:r")
+    ops.append(f"q prop @ca1-{PRELUDE_PROPOSALS['ca1']}")
+    ops.append(f"q obj role @{new}")
+    ops.append(f"block bvm {new} appchain UpdateAppchain s:c1 s:name-c1 s:desc x: al:{new} s:reason")
+    for v in ("adm0", "adm1", "adm2"):
+        ops.append(f"block bvm {v} gov Vote s:@{new}-0 s:approve s:r")
+    ops.append(f"q prop @{new}-0")
+    ops.append("q obj appchain c1")
+    ops.append("q obj role @ca1")
+    ops.append(f"q obj role @{new}")
+    tags.add(f"owner:c1={new}")
+    tags.add("dropped-admin-scenario")
+    calls = [f"appchain UpdateAppchain s:c1 s:name-c1 s:desc-{r.randint(0, 9)} x: al:ca1,{new} s:reason",
+             "appchain LogoutAppchain s:c1 s:reason",
+             "rule LogoutRule s:c1 s:0x00000000000000000000000000000000000000a1"]
+    for call in r.sample(calls, 2):
+        for who in ("u0", "ca1", "ca2", new):
+            ops.append("q dump")
+            ops.append(f"block bvm {who} {call}")
+            ops.append("q dump")
+    ops.append("q obj appchain c1")
+
+
 def prefixed_chain_probe(r, ops, tags):
     """two appchains whose ids are one a prefix of the other up to a colon (`c5` and `c5:x`, ids are free text), each with its own
     admin; the second registers a service (`c5:x:s1`).  Operations on that service reserved to its chain's admin are then called by an
@@ -371,6 +402,8 @@ def gen_c17(rng, n, tier):
             respelled_booked_account_probe(r, ops, tags)
         elif k1 < 0.92:
             prefixed_chain_probe(r, ops, tags)
+        elif k1 < 1.0:
+            dropped_admin_probe(r, ops, tags)
         ops += ["q ic c1:s1", "q ic c2:s1", "q status 1356:c1:s1-1356:c2:s1-1", "q status 1356:c2:s1-1356:c1:s1-1"]
         hs.append(History(ops, tags=tags))
     return hs
@@ -401,6 +434,8 @@ def mon_c17(h, obs):
     hits = []
     steps = mon_exec.parse_trace(h, obs)
     reserved = {(c, m): pos for (c, m, _ins, pos) in load_reserved()}
+    # (their permission list is passed down to a helper, out of the extractor's sight: the property text names them)
+    reserved.setdefault(("appchain", "LogoutAppchain"), 1)
     outsider_class = {}      # (contract, method, args) -> error class an outsider got for exactly this call
     owners = dict(CHAIN_ADMIN)
     nonadmins = {t[9:] for t in h.tags if t.startswith("nonadmin:")}
@@ -445,7 +480,7 @@ def mon_c17(h, obs):
                 hits.append(Hit(f"C17/foreign-interchain-record-changed/{c}.{m}", f"{c}.{m} by {tx.signer} ({cls}) changed {k}", detail=b.op))
                 break
         # R3: objects of chain c1 are not modified by outsiders or by another chain's admin
-        if cls in ("outsider", "other-chain-admin") and tx.signer != CHAIN_ADMIN["c1"] and (c, m) not in OPEN_WRITERS:
+        if cls in ("outsider", "other-chain-admin") and tx.signer != owners.get("c1", CHAIN_ADMIN["c1"]) and (c, m) not in OPEN_WRITERS:
             for k in changed:
                 if k in d0 and re_c1(k):
                     hits.append(Hit(f"C17/foreign-object-changed/{c}.{m}", f"{c}.{m} by {tx.signer} ({cls}) changed {k}", detail=b.op))
